@@ -38,6 +38,32 @@ def emitted_names(fx):
     return out
 
 
+def _flow_free_edges(f):
+    """edges of `f` on which `in_flow == 0` is known: the true edge of `in_flow == 0` / `in_flow <= 0`, the false edge of
+    `in_flow > 0` / `in_flow != 0` / `0 < in_flow` — the test may be read into a local first (`let block = self.in_flow == 0`)"""
+    out = []
+    with f.deep():
+        sw = list(bool_switches(f))
+    for sb, sym, tt, ff in sw:
+        neg = False
+        while sym[0] == "un" and sym[1] == "Not":
+            sym, neg = sym[2], not neg
+        if sym[0] != "bin":
+            continue
+        op, a, b = sym[1], render(sym[2]), render(sym[3])
+        yes = None
+        if "in_flow" in a and b == "0":
+            yes = {"Eq": True, "Le": True, "Ne": False, "Gt": False}.get(op)
+        elif "in_flow" in b and a == "0":
+            yes = {"Eq": True, "Ge": True, "Ne": False, "Lt": False}.get(op)
+        if yes is None:
+            continue
+        if neg:
+            yes = not yes
+        out.append((sb, tt if yes else ff))
+    return out
+
+
 def run(ctx):
     for config in ctx.configs:
         fx = ctx.facts(config)
@@ -102,10 +128,7 @@ def run(ctx):
             ctx.check(bool(clears) and must_pass(tf, [b], clears, to_blocks=oks), "COMMENT", "C20:COMMENT:cleared-after-value", "a staged comment is cleared before the field serializer returns Ok",
                       "a staged comment can survive the wrapped value (complex values ignore it) and be attached to a later, unrelated scalar", config, ctx.where(tf, b))
             # staged only outside flow
-            okf = False
-            for sb, sym, tt, ff in bool_switches(tf):
-                if sym[0] == "bin" and sym[1] == "Eq" and "in_flow" in render(sym[2]) and render(sym[3]) == "0" and tf.edge_dominates(sb, tt, b):
-                    okf = True
+            okf = any(tf.edge_dominates(sb, e, b) for sb, e in _flow_free_edges(tf))
             ctx.check(okf, "COMMENT", "C20:COMMENT:staged-outside-flow", "comments are staged only when not in flow context", "a comment can be staged inside a flow collection (it would swallow the rest of the line)", config, ctx.where(tf, b))
         # who consumes the staged comment: only write_end_of_scalar, and only when not in flow
         takers = set()
@@ -119,9 +142,8 @@ def run(ctx):
         okw = False
         for b, t in we.calls():
             if fx.callee(t) == "std::option::Option::take":
-                for sb, sym, tt, ff in bool_switches(we):
-                    if sym[0] == "bin" and sym[1] == "Eq" and "in_flow" in render(sym[2]) and render(sym[3]) == "0" and we.edge_dominates(sb, tt, b):
-                        okw = True
+                if any(we.edge_dominates(sb, e, b) for sb, e in _flow_free_edges(we)):
+                    okw = True
         ctx.check(okw, "COMMENT", "C20:COMMENT:written-outside-flow", "the comment is written only outside flow context", "write_end_of_scalar can write ` # comment` inside a flow collection", config, ctx.where(we))
         # -- literal / folded wrapper bodies go through the guarded emitter
         C12.rule_block_guard(ctx, fx, config, breaks, "C20")
